@@ -4302,12 +4302,20 @@ func (fastpathDTCborBytes) DecSliceUint8Y(v []uint8, d *decoderCborBytes) (v2 []
 	if ctyp == valueTypeNil {
 		return nil, v != nil
 	}
-	if ctyp != valueTypeMap {
+	if ctyp == valueTypeBytes || ctyp == valueTypeString {
 		var dbi dBytesIntoState
 		v2, dbi = d.decodeBytesInto(v[:len(v):len(v)], false)
 		return v2, dbi != dBytesIntoParamOut
 	}
-	containerLenS := d.mapStart(d.d.ReadMapStart()) * 2
+	var containerLenS int
+	isArray := ctyp == valueTypeArray
+	if isArray {
+		containerLenS = d.arrayStart(d.d.ReadArrayStart())
+	} else if ctyp == valueTypeMap {
+		containerLenS = d.mapStart(d.d.ReadMapStart()) * 2
+	} else {
+		halt.errorStr2("decoding into a slice, expect map/array - got ", ctyp.String())
+	}
 	hasLen := containerLenS >= 0
 	var j int
 	fnv := func(dst []uint8) { v, changed = dst, true }
@@ -4326,7 +4334,9 @@ func (fastpathDTCborBytes) DecSliceUint8Y(v []uint8, d *decoderCborBytes) (v2 []
 				fnv(v[:containerLenS])
 			}
 		}
-		if j&1 == 0 {
+		if isArray {
+			d.arrayElem(j == 0)
+		} else if j&1 == 0 {
 			d.mapElemKey(j == 0)
 		} else {
 			d.mapElemValue()
@@ -4341,7 +4351,11 @@ func (fastpathDTCborBytes) DecSliceUint8Y(v []uint8, d *decoderCborBytes) (v2 []
 	} else if j == 0 && v == nil {
 		fnv([]uint8{})
 	}
-	d.mapEnd()
+	if isArray {
+		d.arrayEnd()
+	} else {
+		d.mapEnd()
+	}
 	return v, changed
 }
 func (fastpathDTCborBytes) DecSliceUint8N(v []uint8, d *decoderCborBytes) {
@@ -4349,14 +4363,24 @@ func (fastpathDTCborBytes) DecSliceUint8N(v []uint8, d *decoderCborBytes) {
 	if ctyp == valueTypeNil {
 		return
 	}
-	if ctyp != valueTypeMap {
+	if ctyp == valueTypeBytes || ctyp == valueTypeString {
 		d.decodeBytesInto(v[:len(v):len(v)], true)
 		return
 	}
-	containerLenS := d.mapStart(d.d.ReadMapStart()) * 2
+	var containerLenS int
+	isArray := ctyp == valueTypeArray
+	if isArray {
+		containerLenS = d.arrayStart(d.d.ReadArrayStart())
+	} else if ctyp == valueTypeMap {
+		containerLenS = d.mapStart(d.d.ReadMapStart()) * 2
+	} else {
+		halt.errorStr2("decoding into a slice, expect map/array - got ", ctyp.String())
+	}
 	hasLen := containerLenS >= 0
 	for j := 0; d.containerNext(j, containerLenS, hasLen); j++ {
-		if j&1 == 0 {
+		if isArray {
+			d.arrayElem(j == 0)
+		} else if j&1 == 0 {
 			d.mapElemKey(j == 0)
 		} else {
 			d.mapElemValue()
@@ -4368,7 +4392,11 @@ func (fastpathDTCborBytes) DecSliceUint8N(v []uint8, d *decoderCborBytes) {
 			d.swallow()
 		}
 	}
-	d.mapEnd()
+	if isArray {
+		d.arrayEnd()
+	} else {
+		d.mapEnd()
+	}
 }
 
 func (d *decoderCborBytes) fastpathDecSliceUint64R(f *decFnInfo, rv reflect.Value) {
@@ -10542,12 +10570,20 @@ func (fastpathDTCborIO) DecSliceUint8Y(v []uint8, d *decoderCborIO) (v2 []uint8,
 	if ctyp == valueTypeNil {
 		return nil, v != nil
 	}
-	if ctyp != valueTypeMap {
+	if ctyp == valueTypeBytes || ctyp == valueTypeString {
 		var dbi dBytesIntoState
 		v2, dbi = d.decodeBytesInto(v[:len(v):len(v)], false)
 		return v2, dbi != dBytesIntoParamOut
 	}
-	containerLenS := d.mapStart(d.d.ReadMapStart()) * 2
+	var containerLenS int
+	isArray := ctyp == valueTypeArray
+	if isArray {
+		containerLenS = d.arrayStart(d.d.ReadArrayStart())
+	} else if ctyp == valueTypeMap {
+		containerLenS = d.mapStart(d.d.ReadMapStart()) * 2
+	} else {
+		halt.errorStr2("decoding into a slice, expect map/array - got ", ctyp.String())
+	}
 	hasLen := containerLenS >= 0
 	var j int
 	fnv := func(dst []uint8) { v, changed = dst, true }
@@ -10566,7 +10602,9 @@ func (fastpathDTCborIO) DecSliceUint8Y(v []uint8, d *decoderCborIO) (v2 []uint8,
 				fnv(v[:containerLenS])
 			}
 		}
-		if j&1 == 0 {
+		if isArray {
+			d.arrayElem(j == 0)
+		} else if j&1 == 0 {
 			d.mapElemKey(j == 0)
 		} else {
 			d.mapElemValue()
@@ -10581,7 +10619,11 @@ func (fastpathDTCborIO) DecSliceUint8Y(v []uint8, d *decoderCborIO) (v2 []uint8,
 	} else if j == 0 && v == nil {
 		fnv([]uint8{})
 	}
-	d.mapEnd()
+	if isArray {
+		d.arrayEnd()
+	} else {
+		d.mapEnd()
+	}
 	return v, changed
 }
 func (fastpathDTCborIO) DecSliceUint8N(v []uint8, d *decoderCborIO) {
@@ -10589,14 +10631,24 @@ func (fastpathDTCborIO) DecSliceUint8N(v []uint8, d *decoderCborIO) {
 	if ctyp == valueTypeNil {
 		return
 	}
-	if ctyp != valueTypeMap {
+	if ctyp == valueTypeBytes || ctyp == valueTypeString {
 		d.decodeBytesInto(v[:len(v):len(v)], true)
 		return
 	}
-	containerLenS := d.mapStart(d.d.ReadMapStart()) * 2
+	var containerLenS int
+	isArray := ctyp == valueTypeArray
+	if isArray {
+		containerLenS = d.arrayStart(d.d.ReadArrayStart())
+	} else if ctyp == valueTypeMap {
+		containerLenS = d.mapStart(d.d.ReadMapStart()) * 2
+	} else {
+		halt.errorStr2("decoding into a slice, expect map/array - got ", ctyp.String())
+	}
 	hasLen := containerLenS >= 0
 	for j := 0; d.containerNext(j, containerLenS, hasLen); j++ {
-		if j&1 == 0 {
+		if isArray {
+			d.arrayElem(j == 0)
+		} else if j&1 == 0 {
 			d.mapElemKey(j == 0)
 		} else {
 			d.mapElemValue()
@@ -10608,7 +10660,11 @@ func (fastpathDTCborIO) DecSliceUint8N(v []uint8, d *decoderCborIO) {
 			d.swallow()
 		}
 	}
-	d.mapEnd()
+	if isArray {
+		d.arrayEnd()
+	} else {
+		d.mapEnd()
+	}
 }
 
 func (d *decoderCborIO) fastpathDecSliceUint64R(f *decFnInfo, rv reflect.Value) {
